@@ -32,7 +32,7 @@ PATH_VALUES = {"string": ["abc", "a b-é"]}
 
 
 def op_cases(tier):
-    out = []
+    out = [c for g in ops.shared_item_groups() for c in g]   # first, so that each group stays inside one pack (one document)
     locs = ["path", "query", "header", "cookie"]
     scalar_kinds = [k for k in ops.PARAM_KINDS if k != "arr-string"]
     if tier == "quick":
@@ -241,7 +241,7 @@ def check_call(case, idx, lab, vals, bo, rec, add):
     if r["method"] != case["method"].upper():
         add("method", f"HTTP method {r['method']} instead of {case['method'].upper()}", where)
     # path
-    exp_path = "/api/o%d" % idx + case["path"]
+    exp_path = ("/api/o%s" % case["item"] if case.get("item") is not None else "/api/o%d" % idx) + case["path"]
     for key, v in vals.items():
         name, loc = key.rsplit("@", 1)
         if loc == "path":
